@@ -165,6 +165,11 @@ def scrape_cflags(cdefs):
             raise RuntimeError("cdefs.lua: parent table %s not seen before %s" % (parent, name))
         base.update(fields)
         tables[name] = base
+    # aliases: compilers_flags['zig cc'] = compilers_flags.clang
+    for m in re.finditer(r"compilers_flags(?:\.(\w+)|\['([^']+)'\])\s*=\s*compilers_flags(?:\.(\w+)|\['([^']+)'\])\s*\n", cdefs):
+        name, src = m.group(1) or m.group(2), m.group(3) or m.group(4)
+        if src in tables:
+            tables[name] = dict(tables[src])
     for cc in ("gcc", "clang"):
         if cc not in tables or "cflags_base" not in tables[cc]:
             raise RuntimeError("cdefs.lua: compilers_flags.%s.cflags_base not found" % cc)
@@ -279,3 +284,43 @@ def scrape_sideeffect_policy(analyzer):
     if rest.strip() and not ind:
         raise RuntimeError("analyzer.lua: visitors.Assign: unknown else branch for targets without a symbol: %r" % rest[:200])
     return {"args_propagate": args, "indirect_marks": ind}
+
+
+MAYBE_NEG_EXITS = {"type.is_unsigned": 1, "self.comptime and self.value >= 0": 2}
+
+
+def scrape_maybe_negative(attr_lua, cbuiltins):
+    """Attr:is_maybe_negative (attr.lua) decides whether operators.idiv / operators.mod call the floor helpers or emit
+    the bare C operator.  Returns {"exits": [codes], "unknown": [texts], "either": bool}:
+    exits = the conditions under which the function answers `false`, in order (1 = the type is unsigned,
+    2 = compile-time value >= 0, >= 100 = a condition the model does not know); either = both operators take the
+    helper when `lattr:is_maybe_negative() or rattr:is_maybe_negative()`."""
+    m = re.search(r"function Attr:is_maybe_negative\(\)(.*?)\nend\n", attr_lua, re.S)
+    if not m:
+        raise RuntimeError("attr.lua: Attr:is_maybe_negative not found")
+    body = m.group(1)
+    if not re.search(r"\n  return true\s*$", body):
+        raise RuntimeError("attr.lua: Attr:is_maybe_negative no longer ends with `return true`")
+    n_false = len(re.findall(r"\breturn false\b", body))
+    conds = re.findall(r"if ([^\n]*?) then[^\n]*\n\s*return false", body)
+    if n_false != len(conds):
+        raise RuntimeError("attr.lua: Attr:is_maybe_negative: a `return false` without a recognisable condition")
+    exits, unknown = [], []
+    for c in conds:
+        c = " ".join(c.split())
+        if c in MAYBE_NEG_EXITS:
+            exits.append(MAYBE_NEG_EXITS[c])
+        else:
+            unknown.append(c)
+            exits.append(100 + len(unknown))
+    either = True
+    for name in ("idiv", "mod"):
+        f = re.search(r"function cbuiltins\.operators\.%s\(context, node, emitter, lattr, rattr, lname, rname\)(.*?)\nend\n" % name, cbuiltins, re.S)
+        if not f:
+            raise RuntimeError("cbuiltins.lua: operators.%s not found" % name)
+        uses = re.findall(r"is_maybe_negative", f.group(1))
+        if not uses:
+            raise RuntimeError("cbuiltins.lua: operators.%s no longer consults is_maybe_negative" % name)
+        if not re.search(r"type\.is_integral and \(lattr:is_maybe_negative\(\) or rattr:is_maybe_negative\(\)\) then\s*\n\s*emitter:add_builtin\('nelua_i(div|mod)_'", f.group(1)):
+            either = False
+    return {"exits": exits, "unknown": unknown, "either": either}
